@@ -66,7 +66,12 @@ func makeMaterial() material {
 	m["sm2.peer.eph.pub"] = must(peph.ECDH()).PublicKey().Bytes()
 	for v := 0; v < maxN; v++ {
 		h := rb(32)
+		// one short message, the others need 9 and more KDF blocks (the 8-lane batch plus a remainder of every size): concurrent
+		// encryptions and decryptions under a shared key are inside the batched KDF at the same time
 		msg := rb(20 + 13*v)
+		if v >= 1 {
+			msg = rb(257 + 47*v)
+		}
 		m[vkey("hash", v)] = h
 		m[vkey("msg", v)] = msg
 		m[vkey("sm2.sig", v)] = must(priv.Sign(rand.Reader, h, nil))
@@ -130,6 +135,11 @@ func makeCerts(m material) {
 	root, rootKey, rootDER := mk("root", 1, true, nil, nil)
 	inter, interKey, interDER := mk("inter", 2, true, root, rootKey)
 	_, _, leafDER := mk("leaf", 3, false, inter, interKey)
+	// key rollover: a second intermediate with the SAME subject name and another key, and a leaf issued under it
+	inter2, inter2Key, inter2DER := mk("inter", 6, true, root, rootKey)
+	_, _, leaf2DER := mk("leaf", 7, false, inter2, inter2Key)
+	m["cert.inter2"] = inter2DER
+	m["cert.leaf2"] = leaf2DER
 	_, _, o1 := mk("other-root-1", 4, true, nil, nil)
 	_, _, o2 := mk("other-root-2", 5, true, nil, nil)
 	p := func(der []byte) []byte { return pem.EncodeToMemory(&pem.Block{Type: "CERTIFICATE", Bytes: der}) }
@@ -644,6 +654,7 @@ func allKinds(m material) []*kind {
 	type poolObj struct {
 		roots, inter *smx509.CertPool
 		leaf         *smx509.Certificate
+		leaf2        *smx509.Certificate // issued by the second of two intermediates that share one subject name
 	}
 	ks = append(ks, &kind{
 		name:  "smx509.CertPool",
@@ -655,6 +666,14 @@ func allKinds(m material) []*kind {
 			if po.leaf, err = smx509.ParseCertificate(m["cert.leaf"]); err != nil {
 				return nil, err
 			}
+			if po.leaf2, err = smx509.ParseCertificate(m["cert.leaf2"]); err != nil {
+				return nil, err
+			}
+			defer func() {
+				if ic2, e := smx509.ParseCertificate(m["cert.inter2"]); e == nil && po.inter != nil {
+					po.inter.AddCert(ic2) // added parsed, after the first one: no lazy parse, second under its name
+				}
+			}()
 			// exactly one lazily parsed certificate takes part in a trial (gate events carry no object identity):
 			// even trials: roots from PEM (three certificates, one is the issuer), intermediates added parsed;
 			// odd trials: the intermediate from PEM, the root added parsed.
@@ -683,6 +702,21 @@ func allKinds(m material) []*kind {
 			{name: "Verify", call: func(o any, v int) ([]byte, error) {
 				po := o.(*poolObj)
 				chains, err := po.leaf.Verify(smx509.VerifyOptions{Roots: po.roots, Intermediates: po.inter})
+				if err != nil {
+					return nil, err
+				}
+				var parts [][]byte
+				for _, ch := range chains {
+					for _, c := range ch {
+						parts = append(parts, c.Raw)
+					}
+					parts = append(parts, []byte("|"))
+				}
+				return digestOf(parts...), nil
+			}},
+			{name: "Verify.RolledOverIssuer", call: func(o any, v int) ([]byte, error) {
+				po := o.(*poolObj)
+				chains, err := po.leaf2.Verify(smx509.VerifyOptions{Roots: po.roots, Intermediates: po.inter})
 				if err != nil {
 					return nil, err
 				}
